@@ -10,13 +10,13 @@ L1_NOTE = "Seam L1: the real leptos_i18n_parser::parse_locales run on project di
 CLAIMED = {
     "C01": (
         "bounded exhaustive enumeration of value forests executed on the real parser (L1) and through generated crates (L3), compared with a reference renderer",
-        "Every value forest over Text/Var/Comp up to the node bound, every whitespace combination inside tags and variables, literal segments made of white space only, numbers and booleans taken in through references, the value kinds (incl. references to a value that holds a reference) under every inherits map of a four-locale set declared in every order, every payload pair next to every delimiter, all literal-type pairs, in three containers (top level, nested subkeys, namespaces) is parsed by the real parse_locales and its tree evaluated the way generated code reads it; the result must equal the reference rendering of the AST the files were generated from.",
+        "Every value forest over Text/Var/Comp up to the node bound, every whitespace combination inside tags and variables, literal segments made of white space only, numbers and booleans taken in through references, the value kinds (incl. references to a value that holds a reference) under every inherits map of a four-locale set declared in every order, every payload pair next to every delimiter, all literal-type pairs, in three containers (top level, nested subkeys, namespaces) is parsed by the real parse_locales and its tree evaluated the way generated code reads it; the result must equal the reference rendering of the AST the files were generated from. A shared probe crate holds values with 0..3 tag look-alikes (<br>, <hr/>, <p>) before and between real components, with ASCII and multi-byte text: nothing of the text is lost.",
         L1_NOTE + " Text alphabet excludes lone '<', '{{', '$t(' (no documented escape).",
         "DESIGN.md §3 C01",
     ),
     "C03": (
         "exhaustive enumeration of every inherits map x presence pattern, executed on the real loader (L1) and through the generated accessors of probe crates (L3), compared with a chain-walk reference",
-        "For 3- and 4-locale (thorough 5-locale) sets declared in every order (the default first, in the middle, last), every map from non-default locales to {none, any locale incl. itself and the default} and, per map, one key per (value kind x defined/null/absent pattern) plus every subkey-group state combination: the loader's DefaultedLocales::compute() and the rendered (self-identifying) text of every key in every locale must equal the chain walk of the statement; (L3) the same projects compiled through the proc-macro: every key read in every locale through td_string! must show the chain walk's text.",
+        "For 3- and 4-locale (thorough 5-locale) sets declared in every order (the default first, in the middle, last), every map from non-default locales to {none, any locale incl. itself and the default} and, per map, one key per (value kind x defined/null/absent pattern) plus every subkey-group state combination: the loader's DefaultedLocales::compute() and the rendered (self-identifying) text of every key in every locale must equal the chain walk of the statement; (L3) the same projects compiled through the proc-macro: every key read in every locale through td_string! must show the chain walk's text. For every inherits map over three locales a project whose non-default files write keys twice (value then null, null then value, value then value; plain, interpolation, group, inside a group): the later occurrence counts.",
         L1_NOTE,
         "DESIGN.md §3 C03",
     ),
@@ -52,19 +52,19 @@ CLAIMED = {
     ),
     "C09": (
         "exhaustive enumeration of token strings (<= 5/6 tokens), range specs, JSON shapes, foreign-key forms, inherits loops, file contents and nesting depths executed on the real loader (L1), the real code generator load_locales() (L2) and the build helper (vbuild) under catch_unwind + watchdog + subprocess isolation",
-        "All strings over a 21-token adversarial alphabet up to the bound, one string per character-class edge (C0 / DEL / C1 controls, separators, BMP and astral edges) in six contexts, go through ParsedValue::new and, for shorter ones, through real files and the whole loader - at a plain key and, for the reference forms and short strings, in 9 positions (plural _one / _other / middle form, ordinal _other, range branch and fallback, subkey, non-default locale, reference argument), without and with namespaces; plus all range-count token strings, JSON number classes (as range bounds and as literal counts handed to a range and to a plural), small JSON shapes in value position, foreign-key target/argument/position products, whole-file contents, missing project pieces, 18 whole files around plural merging and repeated keys (through the loader, the code generator and the build helper) and 1..2000 deep/long constructs in subprocesses: every outcome must be Ok or a non-empty Err - no panic, crash, or hang.",
+        "All strings over a 21-token adversarial alphabet up to the bound, one string per character-class edge (C0 / DEL / C1 controls, separators, BMP and astral edges) in six contexts, go through ParsedValue::new and, for shorter ones, through real files and the whole loader - at a plain key and, for the reference forms and short strings, in 9 positions (plural _one / _other / middle form, ordinal _other, range branch and fallback, subkey, non-default locale, reference argument), without and with namespaces; plus all range-count token strings, JSON number classes (as range bounds and as literal counts handed to a range and to a plural), small JSON shapes in value position, foreign-key target/argument/position products, whole-file contents, missing project pieces, 18 whole files around plural merging and repeated keys (through the loader, the code generator and the build helper) and 1..2000 deep/long constructs in subprocesses: every outcome must be Ok or a non-empty Err - no panic, crash, or hang. Code generation also runs under every inherits map over three non-default locales (loops and loops entered from outside included) x which of them define a key, with a 30 s watchdog per request: a silent generator is killed and reported.",
         L1_NOTE + " Depth bound 2000 on an 8 MiB stack.",
         "DESIGN.md §3 C09",
     ),
     "C10": (
         "exhaustive permutation of key order (k<=4/5) over a project corpus, two fresh processes, and three front-end builds of the real loader compared by canonical dump (L1); generated token streams compared across permutations and processes (L2)",
-        "For every corpus project (reference chains, inherits maps, value forests, ranges of every small shape, plural groups, configurations) every permutation of the keys of its files (reversal/rotation for larger files), nested groups reversed and {count,value} fields flipped must give the identical canonical dump (keys, signatures, effective locales, string tables, diagnostics, rendered text or error); the dump must also be identical in two fresh processes and, reduced to format-independent content, across the JSON, JSON5 and YAML builds (YAML: also with some files carrying the other extension).",
+        "For every corpus project (reference chains, inherits maps, value forests, ranges of every small shape, plural groups, configurations) every permutation of the keys of its files (reversal/rotation for larger files), nested groups reversed and {count,value} fields flipped must give the identical canonical dump (keys, signatures, effective locales, string tables, diagnostics, rendered text or error); the dump must also be identical in two fresh processes and, reduced to format-independent content, across the JSON, JSON5 and YAML builds (YAML: also with some files carrying the other extension). The corpus holds keys next to form-named neighbours that do not merge (step / step_one) and one that does (the same error in every order).",
         L1_NOTE + " Numeric literal type may differ between front-ends (stated in the property).",
         "DESIGN.md §3 C10",
     ),
     "C11": (
         "exhaustive sweep of every Unicode scalar value and nasty two-character strings through the real loader (L1), the generated code's table sizes and indices (L2, syn visitor), the build helper's written files (vbuild, strict JSON reader) and the tables embedded in server-rendered pages (L3), checking every literal index against the exported table",
-        "Every Unicode scalar as a one-character translation and all pairs over 14 hostile characters, in flat, nested-subkey, namespaced, defaulted and foreign-key-duplicated layouts: each Literal::String(s,i) must satisfy strings[i]==s with i in range, and the string count recorded in every (sub-)locale must equal the table length; plus every assignment of 3 shared strings / an interpolation / null to 2 keys in 3-4 locales (x inherits x namespaces) and, for the build helper, every sequence of <= 3 exports of 4 project variants into one output directory; every assignment of 7 literal kinds to one key in 3 locales; (L3) the tables embedded in server-rendered pages (dynamic_load + ssr probe crates, every ordered subset of touched units incl. units with empty tables, eager and lazy reads) must decode to the tables the server function exports. For every project of the model corpus (plurals with keys between their forms, ranges, references, namespaces, inherits) the decoded table the build helper exports equals the strings list of the macro-way parse (ICU feature checks on), file by file, order included. The same invariants are checked on every project of every other L1 check.",
+        "Every Unicode scalar as a one-character translation and all pairs over 14 hostile characters, in flat, nested-subkey, namespaced, defaulted and foreign-key-duplicated layouts: each Literal::String(s,i) must satisfy strings[i]==s with i in range, and the string count recorded in every (sub-)locale must equal the table length; plus every assignment of 3 shared strings / an interpolation / null to 2 keys in 3-4 locales (x inherits x namespaces) and, for the build helper, every sequence of <= 3 exports of 4 project variants into one output directory; every assignment of 7 literal kinds to one key in 3 locales; (L3) the tables embedded in server-rendered pages (dynamic_load + ssr probe crates, every ordered subset of touched units incl. units with empty tables, eager and lazy reads) must decode to the tables the server function exports. For every project of the model corpus (plurals with keys between their forms, ranges, references, namespaces, inherits) the decoded table the build helper exports equals the strings list of the macro-way parse (ICU feature checks on), file by file, order included. The same invariants are checked on every project of every other L1 check. Each exported table is also read back through the library's client-side type LocaleServerFnOutputClient.",
         L1_NOTE + " File written by the build helper / generated-code sizes: see engines vbuild / L2 in the evidence when present.",
         "DESIGN.md §3 C11",
     ),
@@ -82,13 +82,13 @@ CLAIMED = {
     ),
     "C15": (
         "exhaustive enumeration of environments (cookie header x cookie options x Accept-Language x parent x initial locale) on natively created contexts with injected header getters (RT), and of header values on generated enums whose default is declared first / in the middle / last / not at all (L3)",
-        "All ~1.7e5 environments build real contexts (init_i18n_context_with_options, init_i18n_subcontext_with_options, resolve_locale_with_options, and the generated <I18nContextProvider> / <I18nSubContextProvider> components - the former under every value of its html-attribute props, the latter alone and after a sibling provider holding another locale, which is not the parent) under the ssr feature with effects run to quiescence on a harness-owned executor; the configured locales have mixed specificity (en, fr, de, en-US) and the Accept-Language values include lists whose preferred entry maps to a less specific locale than a later one; the initial locale must follow cookie > Accept-Language best match (the C12 oracle: first matchable entry, exact match preferred) > default, and for sub-contexts cookie > initial > parent > same resolution; invalid cookie values are ignored.",
+        "All ~1.7e5 environments build real contexts (init_i18n_context_with_options, init_i18n_subcontext_with_options, resolve_locale_with_options, and the generated <I18nContextProvider> / <I18nSubContextProvider> components - the former under every value of its html-attribute props, the latter alone and after a sibling provider holding another locale, which is not the parent) under the ssr feature with effects run to quiescence on a harness-owned executor; the configured locales have mixed specificity (en, fr, de, en-US) and the Accept-Language values include lists whose preferred entry maps to a less specific locale than a later one; the initial locale must follow cookie > Accept-Language best match (the C12 oracle: first matchable entry, exact match preferred) > default, and for sub-contexts cookie > initial > parent > same resolution; invalid cookie values are ignored. (L3) configurations with variant subtags (de next to de-1996; ca-valencia, de-CH-1996, de-CH) and headers with and without them.",
         "Seam RT (ssr). Client-only branches (navigator.languages, <html lang>) need a browser and are not executed. Accept-Language entries are fed without spaces (splitting is leptos-use's).",
         "DESIGN.md §3 C15",
     ),
     "C16": (
         "stateless exhaustive exploration of operation histories (depth <= 4/5) over a tree of contexts, replayed on the real reactive runtime under a harness-owned deterministic executor",
-        "Every history of set_locale / set_locale_untracked / set-through-scoped-view / set through a handle looked up with use_i18n() in the context's owner / sub-context creation (none, constant, wired initial locale; directly, through the generated <I18nSubContextProvider> component placed in the parent's owner, with provide_i18n_subcontext, or inside a tracking scope - a Memo that is read again after every step, whose re-run would replace the sub-context) / wired-signal writes / accessor creation / poll up to the depth bound is replayed from scratch on a fresh Owner; after every step every context, use_i18n() in its owner, a fresh scoped view and every accessor created earlier (t!, t_string!, tu_string!, t_display!, scoped) is read and compared with a context -> last-locale map; subscribers created earlier (a Memo over t_string! and an Effect writing what it sees into a sink; one Memo per tracked accessor - t_string!, t_display!, t!, scoped forms, t_format_string!, t_format_display!, get_locale - holding it alone) must hold the last locale after every tracked write (the effect once effects ran; after an untracked write they may lag until the next tracked one); replay determinism is self-checked.",
+        "Every history of set_locale / set_locale_untracked / set-through-scoped-view / set through a handle looked up with use_i18n() in the context's owner / sub-context creation (none, constant, wired initial locale; directly, through the generated <I18nSubContextProvider> component placed in the parent's owner, with provide_i18n_subcontext, or inside a tracking scope - a Memo that is read again after every step, whose re-run would replace the sub-context) / wired-signal writes / accessor creation / poll up to the depth bound is replayed from scratch on a fresh Owner; after every step every context, use_i18n() in its owner, a fresh scoped view and every accessor created earlier (t!, t_string!, tu_string!, t_display!, scoped) is read and compared with a context -> last-locale map; subscribers created earlier (a Memo over t_string! and an Effect writing what it sees into a sink; one Memo per tracked accessor - t_string!, t_display!, t!, scoped forms, t_format_string!, t_format_display!, get_locale - holding it alone) must hold the last locale after every tracked write (the effect once effects ran; after an untracked write they may lag until the next tracked one); replay determinism is self-checked. The harness has two locales of one language with different plural rules (pt-BR, pt-PT); the scoped setter and the looked-up handle write them.",
         "Seam RT (ssr, reactive_graph/effects). All tasks, including those leptos hands to the thread pool, run on the calling thread's queue when the harness polls. Wired-signal window: either value admitted until the next poll.",
         "DESIGN.md §3 C16",
     ),
@@ -100,13 +100,13 @@ CLAIMED = {
     ),
     "C20": (
         "exhaustive enumeration of (formatter/plural family, placement) singles and pairs on the real build helper against a used-family predicate computed from the AST",
-        "Each of 11 families (cardinal / plain / ordinal plurals, plurals whose count carries a number / currency formatter, 6 formatters) at each of 9 placements (default locale, non-default only, next to a non-string literal in the other locale, nested subkeys, range branch, plural form, only as a foreign-key target, second namespace, unreachable surplus key, none), namespaced or not, over 5 locale sets (incl. names with variant subtags), plus pairs of placements: the characteristic ICU data key of a family must be requested iff a reachable key uses the family in some locale (plural rules: the key of the kind in use - cardinal or ordinal - is required, no plural at all forbids both); reported locales, language identifiers, namespaces and file list must be exactly the configured ones.",
+        "Each of 11 families (cardinal / plain / ordinal plurals, plurals whose count carries a number / currency formatter, 6 formatters) at each of 9 placements (default locale, non-default only, next to a non-string literal in the other locale, nested subkeys, range branch, plural form, only as a foreign-key target, second namespace, unreachable surplus key, none), namespaced or not, over 5 locale sets (incl. names with variant subtags), plus pairs of placements: the characteristic ICU data key of a family must be requested iff a reachable key uses the family in some locale (plural rules: the key of the kind in use - cardinal or ordinal - is required, no plural at all forbids both); reported locales, language identifiers, namespaces and file list must be exactly the configured ones. Placement plain-variable-in-default: the default locale prints the count / the variable plain and only another locale makes it a plural count or gives it the formatter.",
         "Seam: leptos_i18n_build::TranslationsInfos linked natively (parser built with `quote` as in a user's host build). The provider generation itself (DatagenProvider::new_latest_tested) needs a CLDR download and is not run: the request is what is checked.",
         "DESIGN.md §3 C20",
     ),
     "C02": (
         "exhaustive enumeration of accessor flavours x scoping prefixes x locales x counts over a project holding every key kind, executed in generated probe crates against the reference renderer",
-        "A project with one key of every kind at depth 1 and 3 in two namespaces and three locales (inheritance, explicit nulls, gaps) is compiled through the real proc-macro; every key is read through td/t/tu x view/string/display, through scope_locale!/scope_i18n! at every proper prefix (one step and chained) and use_i18n_scoped!, and the const accessor chain, with counts {0,1,2,5}, t! / tu! views built under another locale and rendered after the context moved, and count-driven views whose count closure changes its value after the view closure was built / called once; the ranges of the project have overlapping branches (an exact value and an alternative list written after the bounds containing them: the view and the string back-ends generate their branch chains separately); every record must equal the reference rendering, hence all flavours agree; in a second project (en, bn, sv) keys carrying number formatters are read through all 9 flavours with positive / negative / zero / fractional / integer-typed values, and in a third (en, fr, de, bn) date / time / datetime / list / currency formatters: each must equal the direct ICU4X call.",
+        "A project with one key of every kind at depth 1 and 3 in two namespaces and three locales (inheritance, explicit nulls, gaps) is compiled through the real proc-macro; every key is read through td/t/tu x view/string/display, through scope_locale!/scope_i18n! at every proper prefix (one step and chained) and use_i18n_scoped!, and the const accessor chain, with counts {0,1,2,5}, t! / tu! views built under another locale and rendered after the context moved, and count-driven views whose count closure changes its value after the view closure was built / called once; the ranges of the project have overlapping branches (an exact value and an alternative list written after the bounds containing them: the view and the string back-ends generate their branch chains separately); every record must equal the reference rendering, hence all flavours agree; in a second project (en, bn, sv) keys carrying number formatters are read through all 9 flavours with positive / negative / zero / fractional / integer-typed values, and in a third (en, fr, de, bn) date / time / datetime / list / currency formatters: each must equal the direct ICU4X call. The kinds project also holds values whose literal segments are nothing but blanks (between variables, between components, next to a reference, at both ends).",
         "Seam L3: only documented macros inside the probe; context flavours run on a natively created I18nContext (ssr). Quick tier thins view flavours under scoping.",
         "DESIGN.md §3 C02",
     ),
@@ -118,13 +118,13 @@ CLAIMED = {
     ),
     "C17": (
         "exhaustive enumeration of hostile string contents x ordered subsets of touched translation units, rendered natively by probe crates built with dynamic_load+ssr, decoded by an independent HTML/JS literal reader",
-        "All 196 two-character strings over 14 hostile characters plus </script>, <!--, -->, quotes, backtick, newlines, U+2028/9 (alone and inside sentences) are the translations of two probe crates; <I18nContextProvider> is rendered to HTML for every ordered subset of touched (locale, namespace) units - read lazily (render-time closures), eagerly (while the provider's children are built, as t_string! in a component body) or mixed -, for units whose table is empty next to others in every order, for units read only below a nested <I18nSubContextProvider>, for pages walked once with dry_resolve() before rendering, and for a context-driven render with a locale switch; every script element, cut as an HTML tokenizer cuts it, must be one valid assignment, and the decoded array of the last one (what the client finds) lists exactly the touched units, each with the table its server function exports.",
+        "All 196 two-character strings over 14 hostile characters plus </script>, <!--, -->, quotes, backtick, newlines, U+2028/9 (alone and inside sentences) are the translations of two probe crates; <I18nContextProvider> is rendered to HTML for every ordered subset of touched (locale, namespace) units - read lazily (render-time closures), eagerly (while the provider's children are built, as t_string! in a component body) or mixed -, for units whose table is empty next to others in every order, for units read only below a nested <I18nSubContextProvider>, for pages walked once with dry_resolve() before rendering, and for a context-driven render with a locale switch; every script element, cut as an HTML tokenizer cuts it, must be one valid assignment, and the decoded array of the last one (what the client finds) lists exactly the touched units, each with the table its server function exports. Each exported table is also read back through the library's client-side type LocaleServerFnOutputClient; the flat probe project names its second locale pt-br (a non-canonical spelling).",
         "Seam L3 (dynamic_load + ssr), native rendering. The hydrate-side consumer needs a browser and is not executed.",
         "DESIGN.md §3 C17",
     ),
     "C18": (
         "exhaustive enumeration of the documented formatter grammar (L1), of declarations x locales x values against direct ICU4X calls in probe crates with all cache histories (L3), and bounded DPOR over thread interleavings of the real cache under loom",
-        "(L1) all 95 formatter texts + 768 whitespace variants must be understood as the documented Formatter value; (L3) each declaration x 7 locales (one rendering another locale's declaration, one with non-Latin default digits) x values (large, zero, small integer, negative, beyond 2^63, negative zero) through td_string!/td!/td_format_string! must equal a direct ICU4X call for the locale being rendered, and every sequence of <= 4/5 colliding cache lookups must give the same results whatever ran before; in a build without compiled data the formatters of a registered provider must also work from threads spawned afterwards; (loom) every interleaving up to 2/3 preemptions of concurrent first uses of the cache (3 scenarios) must give the direct ICU4X results without deadlock or panic.",
+        "(L1) all 95 formatter texts + 768 whitespace variants must be understood as the documented Formatter value; (L3) each declaration x 7 locales (one rendering another locale's declaration, one with non-Latin default digits) x values (large, zero, small integer, negative, beyond 2^63, negative zero) through td_string!/td!/td_format_string! must equal a direct ICU4X call for the locale being rendered, and every sequence of <= 4/5 colliding cache lookups must give the same results whatever ran before; in a build without compiled data the formatters of a registered provider must also work from threads spawned afterwards; (loom) every interleaving up to 2/3 preemptions of concurrent first uses of the cache (3 scenarios) must give the direct ICU4X results without deadlock or panic. en-GB stands next to en, and every other declaration meets the locales in reverse order (formatters are per locale, not per language, whichever is built first).",
         "Seams L1, L3, and loom via cargo feature verif_loom (cache lock and lazy static taken from loom, cache code unchanged; crate built through a shadow manifest that supplies loom). ICU4X compiled data is the trusted base. `time_length: full|long` is a recorded known finding (ICU4X refuses, the library panics).",
         "DESIGN.md §3 C18",
     ),
